@@ -856,7 +856,7 @@ func ringLadder(r *ev.Run, sizes []int) int {
 // churnList: ONE list driven through a long history in lock-step with container/list, at most
 // 40 live handles; full traversal comparison every 53 calls.
 func churnList(r *ev.Run) int {
-	n := ev.Pick(r, 60000, 600000)
+	n := ev.Pick(r, 140000, 600000)
 	l, rl := lists.New[int](), clist.New()
 	var he []*lists.Element[int]
 	var hr []*clist.Element
